@@ -207,6 +207,16 @@ func (x *Exec) modBlocks(st *State, fn *ssa.Function, blocks map[*ssa.BasicBlock
 			return Val{}, false
 		}
 		if inLoop(v) {
+			// a load from a cell that the loop does not write is loop-invariant
+			if u, ok := v.(*ssa.UnOp); ok && u.Op == token.MUL {
+				if al, ok := u.X.(*ssa.Alloc); ok && !inLoop(al) && !x.storedIn(blocks, al) {
+					if av, ok := st.top().regs[al]; ok && av.A != nil && av.A.ObjID > 0 {
+						if o := st.objs[av.A.ObjID]; o != nil && o.Kind == objCell {
+							return o.Vals[0], true
+						}
+					}
+				}
+			}
 			return Val{}, false
 		}
 		switch v.(type) {
@@ -821,4 +831,15 @@ func lexLess(nw, old []string) string {
 		return fmt.Sprintf("(or (and (>= %s 0) (< %s %s)) (and (= %s %s) %s))", old[i], nw[i], old[i], nw[i], old[i], build(i+1))
 	}
 	return build(0)
+}
+
+func (x *Exec) storedIn(blocks map[*ssa.BasicBlock]bool, al *ssa.Alloc) bool {
+	for b := range blocks {
+		for _, in := range b.Instrs {
+			if s, ok := in.(*ssa.Store); ok && s.Addr == al {
+				return true
+			}
+		}
+	}
+	return false
 }
